@@ -687,10 +687,21 @@ func (s *Subscriber) idleHandlerCleaner() {
 		case now := <-t.C:
 			s.handlersMutex.Lock()
 			for pid, hnd := range s.handlers {
-				if now.After(hnd.expires) {
+				if !now.After(hnd.expires) {
+					continue
+				}
+				// A handler that is running, or waiting to run, a sync is not
+				// idle, however long that sync takes. Removing it would let
+				// a second sync of the same publisher run concurrently.
+				if !hnd.asyncMutex.TryLock() {
+					continue
+				}
+				if hnd.syncMutex.TryLock() {
 					delete(s.handlers, pid)
 					log.Debugw("Removed idle handler", "peer", pid)
+					hnd.syncMutex.Unlock()
 				}
+				hnd.asyncMutex.Unlock()
 			}
 			s.handlersMutex.Unlock()
 			t.Reset(s.idleHandlerTTL)
